@@ -118,7 +118,35 @@ def rand_comp(rng, allow_digest=False):
 
 
 def rand_name(rng):
+    if rng.random() < 0.25:
+        return boundary_name(rng)
     return [rand_comp(rng) for _ in range(rng.choice([0, 1, 2, 3, 4, 6]))]
+
+
+def boundary_name(rng, big=True):
+    """a name whose encoded components total a length near the points where the Name's own Length (with or
+    without the 34-byte ParametersSha256Digest component) or an enclosing Length changes form"""
+    from ndn.encoding import Component
+    targets = [253 - 34, 253, 253 - 2, 253 - 36]
+    if big:
+        targets += [65536 - 34, 65536]
+    total = max(0, rng.choice(targets) + rng.randint(-4, 4))
+    comps = [rand_comp(rng) for _ in range(rng.choice([0, 1, 2]))]
+    used = sum(len(c) for c in comps)
+    rest = total - used
+    if rest >= 2:
+        # one filler component: header is 2 bytes below 253, 4 bytes from 253 on
+        n = rest - 2 if rest - 2 < 253 else rest - 4
+        comps.insert(rng.randint(0, len(comps)), bytes(Component.from_bytes(bytes(rng.getrandbits(8) for _ in range(8)) * (n // 8 + 1), 8))[:0] or
+                     bytes(Component.from_bytes((bytes(rng.getrandbits(8) for _ in range(8)) * (n // 8 + 1))[:max(n, 0)], 8)))
+    return comps
+
+
+def _tier_name(rng, tier):
+    n = rand_name(rng)
+    if tier == 'quick' and sum(len(c) for c in n) > 3000 and rng.random() < 0.7:
+        n = boundary_name(rng, big=False)
+    return n
 
 
 def boundary_size(rng, overhead_hint=60):
@@ -152,7 +180,7 @@ def gen_data_case(rng, tier):
     mi = {'content_type': rng.choice([None, 0, 1, 2, 3, 255, 256, 70000]),
           'freshness_period': rng.choice([None, 0, 1, 1000, 2 ** 32, 2 ** 63]),
           'final_block_id': rng.choice([None, None, rand_comp(rng).hex()])}
-    return {'pkt': 'data', 'name': [c.hex() for c in rand_name(rng)], 'meta': rng.choice([mi, mi, mi, None]),
+    return {'pkt': 'data', 'name': [c.hex() for c in _tier_name(rng, tier)], 'meta': rng.choice([mi, mi, mi, None]),
             'content': rng.choice([None, size, size, size]), 'seed': rng.getrandbits(32), 'signer': signer}
 
 
@@ -165,7 +193,7 @@ def gen_interest_case(rng, tier):
     size = boundary_size(rng)
     if tier == 'quick' and size > 2000 and rng.random() < 0.6:
         size = rng.randint(0, 300)
-    name = rand_name(rng)
+    name = _tier_name(rng, tier)
     ap = rng.choice([None, None, size, size])
     need = ap is not None or signer[0] != 'none'
     if need and rng.random() < 0.3:
